@@ -565,6 +565,35 @@ func genC12(c *Ctx) {
 		c.add(Case{Op: "su.rc - " + hx(src), Impl: strings.Replace(got, "PANIC", "P", 1), Kind: "rc-byte", Nontrivial: true, Oracle: oracle,
 			Note: fmt.Sprintf("ReverseComplement(nil, [%d])", b)})
 	}
+	// arbitrary byte strings (incl. multi-byte UTF-8): both functions must agree, panic exactly on a foreign byte
+	for i := 0; i < c.n(400); i++ {
+		var s []byte
+		switch i % 3 {
+		case 0:
+			s = c.bytesFrom([]byte("ACGTNacgtn\xc5\x81\xc3\x87\xe2\x84\xaa\x41"), 1+c.rng.Intn(8))
+		case 1:
+			s = []byte(string([]rune{rune(0x100 + c.rng.Intn(0x300)), 'A', rune(0x2100 + c.rng.Intn(0x100))}))
+			s = append(c.bytesFrom([]byte("ACGT"), c.rng.Intn(3)), s...)
+		default:
+			s = c.bytesFrom([]byte("ACGTN\x00\xff\x80 U"), 1+c.rng.Intn(6))
+		}
+		got := safe(func() string { return hx(sequtil.ReverseComplement(nil, s)) })
+		gs := safe(func() string { return hx([]byte(sequtil.ReverseComplementString(string(s)))) })
+		foreign := false
+		for _, b := range s {
+			if stdComp(b) == 0 {
+				foreign = true
+			}
+		}
+		oracle := ""
+		if foreign != (got == "PANIC") || foreign != (gs == "PANIC") {
+			oracle = fmt.Sprintf("foreign byte present=%v but ReverseComplement panics=%v, ReverseComplementString panics=%v", foreign, got == "PANIC", gs == "PANIC")
+		} else if got != gs {
+			oracle = "ReverseComplementString disagrees with ReverseComplement"
+		}
+		c.add(Case{Op: "su.rc - " + hx(s), Impl: strings.Replace(got, "PANIC", "P", 1), Kind: "rc-bytes", Nontrivial: true, Oracle: oracle,
+			Note: fmt.Sprintf("ReverseComplement / ReverseComplementString on %q", s)})
+	}
 	seqs := [][]byte{}
 	maxLen := 4
 	if c.thor {
@@ -1235,6 +1264,17 @@ func genC16(c *Ctx) {
 		q = append(q, math.MinInt64, math.MaxInt64)
 		run(ss, es, q, "random")
 	}
+	// coordinates more than MaxInt apart within one set
+	ext := []int{math.MinInt64, math.MinInt64 + 10, -1 << 62, -5, 0, 7, 1 << 62, math.MaxInt64 - 10, math.MaxInt64}
+	for i := 0; i < c.n(100); i++ {
+		n := 1 + c.rng.Intn(5)
+		ss, es := make([]int, n), make([]int, n)
+		for j := range ss {
+			ss[j] = ext[c.rng.Intn(len(ext))]
+			es[j] = ext[c.rng.Intn(len(ext))]
+		}
+		run(ss, es, ext, "extreme")
+	}
 	run([]int{1, 2}, []int{3}, []int{0}, "mismatch")
 	run([]int{}, []int{3}, []int{0}, "mismatch")
 }
@@ -1455,6 +1495,7 @@ func recPost(n *newick.Node, out *[]string) {
 func travCase(c *Ctx, root *newick.Node, kind string, withModel bool, stops bool) {
 	for _, pre := range []bool{true, false} {
 		var got []string
+		reuse := ""
 		st := safe(func() string {
 			it := root.PostOrder()
 			if pre {
@@ -1462,6 +1503,20 @@ func travCase(c *Ctx, root *newick.Node, kind string, withModel bool, stops bool
 			}
 			for n := range it {
 				got = append(got, n.Name)
+			}
+			// the same iterator value ranged over again, and after an early break, starts afresh
+			var again, third []string
+			for n := range it {
+				again = append(again, n.Name)
+				if len(again) == 2 {
+					break
+				}
+			}
+			for n := range it {
+				third = append(third, n.Name)
+			}
+			if strings.Join(third, ",") != strings.Join(got, ",") || (len(got) >= 2 && strings.Join(again, ",") != strings.Join(got[:2], ",")) {
+				reuse = "ranging again over the same iterator value does not yield every node exactly once"
 			}
 			return ""
 		})
@@ -1476,6 +1531,8 @@ func travCase(c *Ctx, root *newick.Node, kind string, withModel bool, stops bool
 			oracle = "traversal panicked"
 		} else if strings.Join(got, ",") != strings.Join(want, ",") {
 			oracle = "traversal differs from the recursive pre-/post-order"
+		} else if reuse != "" {
+			oracle = reuse
 		}
 		nstops := 0
 		if stops && oracle == "" {
@@ -1756,7 +1813,9 @@ func (c *Ctx) ncbiTable() ncbiTable {
 	for range t.rows {
 		r := make([]int, len(t.cols))
 		for j := range r {
-			if c.rng.Intn(3) == 0 {
+			if c.rng.Intn(8) == 0 {
+				r[j] = []int{4*16777217 + 1, -4*33554433 - 2, 4 * 123456789, 99999999999}[c.rng.Intn(4)] // not exact in float32
+			} else if c.rng.Intn(3) == 0 {
 				r[j] = c.rng.Intn(81) - 40
 			} else {
 				r[j] = 4 * (c.rng.Intn(31) - 15)
@@ -2038,6 +2097,16 @@ func genC20(c *Ctx) {
 		}
 		if cur, _ := quarters(m); matS(cur) != before {
 			oracle = "Symmetrical modified its receiver"
+		}
+		if got != "PANIC" && sym != nil {
+			// the result is a NEW matrix: editing it must not reach the receiver
+			for k := range sym {
+				sym[k] = 12345
+			}
+			sym[[2]byte{1, 2}] = 7
+			if cur, _ := quarters(m); matS(cur) != before {
+				oracle = "editing the matrix returned by Symmetrical changes the receiver (not a new matrix)"
+			}
 		}
 		c.add(Case{Op: "sm.sym " + before, Impl: strings.Replace(got, "PANIC", "P", 1), Kind: "symmetrical", Nontrivial: len(q) > 1, Oracle: oracle,
 			Note: fmt.Sprintf("Symmetrical of %s", before)})
